@@ -2142,6 +2142,20 @@ def check_descent_complete(ck, R):
     unit = _visit_unit(ck)
     v = unit[0]
     helper_names = {fx.fi.name for fx in unit[1:]}
+    # the function that offers a symbol to the rule strategies, found by WHAT IT DOES (it calls try_resolve): the function nested in
+    # _visit_dependency, or a method of the class that _visit_dependency was split into (the blacklist is then one of its parameters)
+    def _calls_try_resolve(fi_):
+        return any(A.call_attr(c) == "try_resolve" for c in A.body_calls(fi_.node))
+
+    rs = None
+    for fx in unit:
+        rs = rs or fx.fi.nested.get("resolve_symbol")
+    rs_by_name = rs is not None
+    if rs is None:
+        cands = [n_ for fx in unit for n_ in fx.fi.nested.values() if _calls_try_resolve(n_)] + [fx.fi for fx in unit[1:] if _calls_try_resolve(fx.fi)]
+        ck.need(len(cands) == 1, "_visit_dependency: expected one function (nested in it, or a method of HashRule it calls) that offers the symbol to the rule "
+                                 "strategies (calls try_resolve), found %d" % len(cands))
+        rs = cands[0]
     n_tests = 0
     for fx in unit:
         colls = fx.nodes_all(fx.calls("collect_transitive_dependencies"))
@@ -2150,7 +2164,7 @@ def check_descent_complete(ck, R):
             if x.kind == "test" and isinstance(x.ast, ast.Compare) and len(x.ast.ops) == 1 and isinstance(x.ast.ops[0], (ast.IsNot, ast.Is)) \
                     and A.is_none(x.ast.comparators[0]) and isinstance(x.ast.left, ast.Name) and x.id in fx.cfg.reachable_nodes():
                 d_ = fx.df.deps(x.ast.left, x.id)
-                if "call:resolve_symbol" in d_ or any(("call:" + h_) in d_ for h_ in helper_names):
+                if ("call:" + rs.name) in d_ or any(("call:" + h_) in d_ for h_ in helper_names):
                     rule_tests.append(x)
         n_tests += len(rule_tests)
         for t in rule_tests:
@@ -2183,17 +2197,8 @@ def check_descent_complete(ck, R):
     ck.need(n_tests >= 2, "_visit_dependency: `if rule is not None` sites not found")
     # the function that offers a symbol to the rule strategies, found by WHAT IT DOES (it calls try_resolve): the function nested in
     # _visit_dependency, or a method of the class that _visit_dependency was split into (the blacklist is then one of its parameters)
-    rs = None
-    for fx in unit:
-        rs = rs or fx.fi.nested.get("resolve_symbol")
     BL = "blacklist"
-    if rs is None:
-        def _calls_try_resolve(fi_):
-            return any(A.call_attr(c) == "try_resolve" for c in A.body_calls(fi_.node))
-        cands = [n_ for fx in unit for n_ in fx.fi.nested.values() if _calls_try_resolve(n_)] + [fx.fi for fx in unit[1:] if _calls_try_resolve(fx.fi)]
-        ck.need(len(cands) == 1, "_visit_dependency: expected one function (nested in it, or a method of HashRule it calls) that offers the symbol to the rule "
-                                 "strategies (calls try_resolve), found %d" % len(cands))
-        rs = cands[0]
+    if not rs_by_name:
         if rs.parent is None:
             # which parameter receives the blacklist: what the call sites in the unit bind the traversal's blacklist to
             got = set()
